@@ -124,10 +124,27 @@ func (in *Interp) initFuncAddr(f *FuncV) {
 	p.witnesses = append(p.witnesses, witness{name: f.addr.name, t: f.addr}, witness{name: f.code.name, t: f.code})
 }
 
-// objAtAddr maps an address term back to a known object (func values only).
+// objAtAddr maps an address term back to a known object: func values, and heap cells /
+// arrays whose address was taken (uintptr(unsafe.Pointer(&x)) and back).
 func (in *Interp) objAtAddr(t *Term) Value {
 	if f, ok := in.addrs.byFuncAddr[t]; ok {
 		return f
+	}
+	if c, ok := t.Const(); ok && c >= 0xc200000000 {
+		id := int((c - 0xc200000000) / 4096)
+		off := int((c - 0xc200000000) % 4096)
+		if off == 0 {
+			for p, i := range in.addrs.cellIDs {
+				if i == id {
+					return p
+				}
+			}
+		}
+		for a, i := range in.addrs.arrIDs {
+			if i == id && off < len(a.elems) {
+				return ElemPtr{arr: a, idx: off}
+			}
+		}
 	}
 	return nil
 }
